@@ -317,6 +317,15 @@ def numeric_family(base, tag=''):
     c = base()
     c['operand_sets']['bit']['operand_values']['b']['bytecode'].update(min=Sym('bmin', -4, 12), max=Sym('bmax', -4, 12))
     S.append(ConfigShape(tag + 'numeric-bytecode-range', config=c, accept='bmax >= bmin'))
+    for one_sided in (None, 'min', 'max'):
+        c = base()
+        a = {'size': 8, 'byte_align': True, 'min': Sym('rmin', -6, 6), 'max': Sym('rmax', -6, 6)}
+        if one_sided:
+            a.pop(one_sided)
+        c['operand_sets']['rel'] = {'operand_values': {'r': {'type': 'relative_address', 'argument': a}}}
+        c['instructions']['jrel'] = {'bytecode': {'value': 9, 'size': 8}, 'operands': {'count': 1, 'operand_sets': {'list': ['rel']}}}
+        S.append(ConfigShape(tag + f'relative-offset-range{"-without-" + one_sided if one_sided else ""}', config=c,
+                             accept='rmax >= rmin' if not one_sided else 'true', expect=['ok', 'rejected'] if not one_sided else ['ok']))
     for bits in (8, 16):
         top = (1 << bits) - 1
         c = base()
@@ -381,6 +390,16 @@ def shapes(tier, seed):
         c['general']['identifier'] = {'name': declared, 'version': '1.2.0'}
         S.append(ConfigShape(f'require-name:{nm}', config=c, source=f'#require "{required} >= 1.0.0"\nnop\n',
                              accept='true' if ok else 'false', expect=['ok'] if ok else ['rejected']))
+    # a requirement that cannot be read is not a satisfied one: the name matches here, so only the form decides
+    c = good_isa()
+    c['general']['identifier'] = {'name': 'acme', 'version': '1.2.0'}
+    for k, line in enumerate(('#require "acme != 1.0.0"', '#require "acme ~= 1.2.0"', '#require acme', '#require "acme >= 1.0.0',
+                              '#require "acme >= abc"', '#require "acme => 1.0.0"', '#require "acme >= 1.0.0" trailing',
+                              '#require "acme >= 9.0.0', '#require \'acme >= 9.0.0\'')):
+        S.append(ConfigShape(f'require-form:unreadable:{k}', config=c, source=line + '\nnop\n', accept='false', expect=['rejected']))
+    for k, line in enumerate(('#require "acme"', '#require "acme >= 1.0.0"   ; comment', '#require   "acme == 1.2.0"', '#require "acme<=1.2.0"',
+                              '#require "acme >= 1.0"', '#REQUIRE "acme >= 1.0.0"'[:0] or '#require "acme > 1.1"')):
+        S.append(ConfigShape(f'require-form:readable:{k}', config=c, source=line + '\nnop\n', accept='true', expect=['ok']))
     # (d) corruption catalogue -------------------------------------------------------------------------------------
     S.append(CorruptionShape('wellformed:baseline', config=good_isa(), files={'main.asm': 'mov ra, 5\nbset 3\nmov2 rb, 1\n'},
                              expect=['ok']))
